@@ -1,3 +1,4 @@
+import Hannibal.Props.SendErrCurrent
 import Hannibal.Props.C02CCurrent
 import Hannibal.Props.C02Current
 import Hannibal.Props.C02Guarded
@@ -10,3 +11,5 @@ import Hannibal.Props.C02Guarded
 #print axioms Hannibal.C02g_holds
 #print axioms Hannibal.C02c_holds
 #print axioms Hannibal.C02c_current
+#print axioms Hannibal.SendErr_holds
+#print axioms Hannibal.SendErr_current
